@@ -356,12 +356,13 @@ CLAIMED['C12'] = dict(
          "the Mismatch dictionary with overwrite, the second recomputation, pushing unverified precedents) and "
          "_CellBase.close_enough (on exact rationals) over coq/Model/Graph.v; formula meaning is an arbitrary total "
          "function. Proved for EVERY well-formed workbook, meaning, tolerance (None or > 0) and list of outputs "
-         "(6 theorems, closed under the global context): C12_sound_partial (consistent stored results -> empty "
+         "(7 theorems, closed under the global context): C12_sound_partial (consistent stored results -> empty "
          "report), C12_complete_partial (one stored result replaced by v' with close_enough false -> that cell is "
          "reported with (v', true value) and every reported cell is it or a descendant, whatever the pop order), "
          "C12_no_silent_skip_partial (for ANY stored results the stack is empty within the fuel |outputs|+|edges|+1 "
          "and every node the outputs reach is in verified), the general forms C12_clean_not_reported_partial / "
-         "C12_bad_reported_partial (any number of altered cells), C12_close_enough_refl. The C01 coherence invariant "
+         "C12_bad_reported_partial (any number of altered cells), C12_close_enough_refl, C12_outputs_default "
+         "(output_addrs=None is an instance). The C01 coherence invariant "
          "does not hold on a file with an altered stored result, so the loop invariant is a new one (a node whose "
          "ancestors' stored results are consistent holds its from-scratch value; no built node is empty between "
          "iterations; an unverified cell holds its stored result; a verified node's precedents are verified or ABOVE "
@@ -376,7 +377,7 @@ CLAIMED['C12'] = dict(
          "validate_calcs call of the oracle streams (60 workbooks x {consistent x 3 tolerances x 2 output choices, "
          "each formula cell perturbed x 3 tolerances}) plus the two extra streams, ~1000 runs per quick run: the "
          "mismatch dictionary (order, original, calced) and every cell value after the run are compared exactly "
-         "with the extracted loop.",
+         "with the extracted loop; plus 400 direct calls of _CellBase.close_enough against its transcription.",
     design_ref="DESIGN.md 5 C12",
 )
 
